@@ -168,6 +168,9 @@ func genDelay(r *Rand) (int, int) {
 func GenScenario(p *Program, r *Rand, exec uint64, tagName string, k int) *Scenario {
 	s := &Scenario{Tag: tagName, Out: map[int]Outcome{}, ElemOut: map[int]map[uint64]Outcome{}, FnInfo: p.FnInfos()}
 	s.Conc = r.PickInt(0, 1, 1, 2, 2, 3, 4, 8, 64)
+	if p.ConstConc > 0 {
+		s.Conc = p.ConstConc // the directive's limit is a constant of the program
+	}
 	s.FarDeadline = exec%4 == 1
 	if p.Flow != nil {
 		for i := range p.Flow.Params {
@@ -209,6 +212,9 @@ func GenScenario(p *Program, r *Rand, exec uint64, tagName string, k int) *Scena
 			}
 		}
 		s.COE = p.Par.COE && !r.Chance(1, 5)
+		if p.ConstCOE > 0 {
+			s.COE = p.ConstCOE == 1
+		}
 	}
 	predOutcome := func(allowPanic bool) Outcome {
 		switch x := r.Intn(10); {
